@@ -302,7 +302,7 @@ Proof.
     destruct (wpend (wild st)); [discriminate|]. inversion E; subst. clear E.
     set (w' := mkWild None (S (rdrs (wild st))) (wsinks (wild st)) (nsinks (wild st))).
     assert (I1 : Inv2 (set_wild st w')) by (apply F_wild; [exact I|reflexivity]).
-    pose proof (F_expect _ (wsinks (wild st)) (n, eev e) I1) as I2.
+    pose proof (F_expect _ (wsinks (wild st)) (k, eev e) I1) as I2.
     eapply (F_emit_wenter _ k e n (wsinks (wild st))) in I2; [exact I2|exact Ek|].
     intros x Hx. apply (iW1 _ I2). exact Hx.
   - destruct todo as [|s r].
@@ -312,7 +312,7 @@ Proof.
       eapply (F_emit _ k e (ERet 0)) in I1; [exact I1|exact Ek|reflexivity].
     + otau_inv E. pose proof (iW2 st I k e n (s :: r) s Ek Ep (or_introl eq_refl)) as Hw.
       destruct (wild_open st s HL Hw) as [c [Ec Hc]]. rewrite (send_open _ _ _ _ _ Ec Hc E).
-      assert (I1 : Inv2 (set_sub st s (push c (n, eev e)))) by (eapply F_sub; [exact I|exact Ec|apply push_ctl]).
+      assert (I1 : Inv2 (set_sub st s (push c (k, eev e)))) by (eapply F_sub; [exact I|exact Ec|apply push_ctl]).
       eapply (F_emit_wenter _ k e n r) in I1; [exact I1|exact Ek|].
       intros y Hy. eapply is_wild_set_sub; [exact Ec|reflexivity|]. apply (iW2 st I k e n (s :: r) y Ek Ep). right. exact Hy.
   - inversion E; subst. apply F_emit; auto.
